@@ -37,6 +37,8 @@ rule("C19.k", "an extreme timestamp (pd.Timestamp.max / .min, used for 'valid fo
               "UTC the localised value lies beyond the representable range and the interval silently becomes empty", floor=0)
 rule("C14.i", "Dt - the time elapsed since the start of the *reference* grid, kept for discounting - is not used as a duration by an asset's "
               "set-up: the active duration of a window is restricted.dt.sum()", floor=0, props=["C14", "C16", "C08"])
+rule("C19.m", "interval data without 'end': the single-start case (one 'end' is made up) is taken exactly when there is one start - the guard "
+              "that separates it from the implied-ends case compares the number of starts with 1", floor=1)
 NO_STRIP = "a date that reaches the zone case analysis has not passed a conversion that silently drops its zone (.values on a frame " \
            "column, a datetime64 cast, tz_localize(None)) - neither in the function nor where the constructor stored it"
 rule("C19.h", "interval data and asset windows: " + NO_STRIP, floor=2)
@@ -216,7 +218,7 @@ def _zone_cases(ctx):
     return counts
 
 
-@analysis("intervals", ["C19.a", "C19.b", "C19.c", "C19.e", "C19.g", "C15.g", "C20.h", "C11.i", "C19.h", "C20.i", "C15.h", "C19.i", "C19.j", "C19.k", "C14.i"])
+@analysis("intervals", ["C19.a", "C19.b", "C19.c", "C19.e", "C19.g", "C15.g", "C20.h", "C11.i", "C19.h", "C20.i", "C15.h", "C19.i", "C19.j", "C19.k", "C14.i", "C19.m"])
 def run(ctx):
     p = ctx.p
     zc = _zone_cases(ctx)
@@ -322,6 +324,30 @@ def run(ctx):
                    "overlapping intervals silently overwrite each other instead of being rejected", node=s)
     if not done:
         ctx.ob("C19.b", vg, "interval loop", None, "loop assigning interval values into the grid not found")
+
+    # ================================================================= C19.m single start versus implied ends
+    found_m = False
+    for iff in [s0 for s0 in au.walk_stmts(vg.body) if isinstance(s0, ast.If) and s0.orelse]:
+        t = iff.test
+        if not (isinstance(t, ast.Compare) and len(t.ops) == 1 and isinstance(t.left, ast.Call) and au.call_name(t.left) == "len" and au.const_num(t.comparators[0]) is not None):
+            continue
+        one_elem = [s1 for s1 in iff.orelse + iff.body if isinstance(s1, ast.Assign) and isinstance(s1.value, ast.List) and len(s1.value.elts) == 1
+                    and isinstance(s1.targets[0], ast.Subscript)]
+        if not one_elem:
+            continue
+        found_m = True
+        k = au.const_num(t.comparators[0])
+        in_else = any(one_elem[0] is x for x in iff.orelse)
+        op = type(t.ops[0])
+        # the arm with the one-element list must be taken iff len == 1
+        ok = (in_else and ((op is ast.Gt and k == 1) or (op is ast.GtE and k == 2) or (op is ast.NotEq and k == 1))) or \
+            ((not in_else) and ((op is ast.Eq and k == 1) or (op is ast.LtE and k == 1) or (op is ast.Lt and k == 2)))
+        ctx.ob("C19.m", vg, "if %s" % au.short(t, 50), ok,
+               "the arm that makes up a single 'end' (a one-element list) is taken for every input that fails `%s`, i.e. also for %s starts: "
+               "zip(start, end, values) then silently drops all intervals but the first, and every grid point gets the first interval's "
+               "value (winter / summer capacity 10 / 4: 10 all year)" % (au.short(t, 40), "two" if k == 2 else "several"), node=iff)
+    if not found_m:
+        ctx.ob("C19.m", vg, "single-start case", None, "the branch that makes up a single 'end' was not found")
 
     # ================================================================= C19.c
     init = tg.methods.get("__init__")
